@@ -17,7 +17,7 @@ pub fn def() -> PropDef {
         nontrivial,
         rule: "every termination cause (13 kinds) x {nobody ever awaits, an awaiter exists before, an awaiter is created afterwards} x liveness queries (Addr::stopped, Addr::running, WeakAddr::stopped) on the original handle, on clones made before and after, and on weak addresses, at random positions; plus a registry sub-family (from_registry / try_from_registry / already_running / register after a termination nobody awaited); answers are compared with the simulator's ground truth 'the actor's task ended at event k'; non-trivial = a query was issued after the end of the actor with no await having completed before it; distinct = distinct order of client-op and callback events",
         needed_probes: &["c14_query_after_unawaited_death", "c14_query_while_alive", "c14_registry_after_unawaited_death", "c14_query_after_awaited_death"],
-        quick_runs: 100_000,
+        quick_runs: 200_000,
         thorough_runs: 2_000_000,
         block: 1,
         flavours: &["tokio"],
